@@ -122,6 +122,16 @@ CHECKS = {
              'that exp2cxx rejects is judged by C04/C06, not here.',
         technique='exhaustive program-family enumeration on the two real tools + differential (set equality) oracle',
         ref='3/C17'),
+    'C18': dict(
+        text='Exhaustive program-family enumeration: the packed attribute-kind family, the inheritance family (chains, diamond, two roots, derived/redeclared '
+             'attributes, ABSTRACT/ONEOF/AND/ANDOR), a naming family with every Python keyword and common builtins as attribute, entity and type names, the generated '
+             'text family and the shipped unitary schemas (thorough: one schema per attribute kind, all shipped); each is run through exp2python and the result is '
+             'py_compiled, imported and inspected in a fresh `python3 -I` against the bundled package. Expected classes, base-class order and constructor parameters '
+             'come from the abstract schema model (Part 21 attribute order), not from the tool.',
+        note='Trusted: smodel (abstract model) and a small declaration reader for the text-only schemas (redeclared attributes not modelled there: bases only). '
+             'Enumeration items and select members are compared as sets; keyword escaping by a trailing "_" is accepted.',
+        technique='exhaustive program-family enumeration on the real generator + reference-model (abstract schema) comparison of the imported module',
+        ref='3/C18'),
     'C19': dict(
         text='Explicit-state breadth-first search over operation histories on the real Python ARRAY/LIST/BAG/SET classes: 1224 constructions '
              '(bounds -1..3 x 0..4/unbounded x UNIQUE x OPTIONAL x 5 base types), every item assignment/add/read/query in every distinct state to depth 6 '
